@@ -391,7 +391,12 @@ def run_generic(pid, tier, seed):
             for a, b in chosen:
                 scs.append(history_scenario("pair-%s+%s" % (a[0], b[0]), [a, b], rng))
                 scs.append(once_each_scenario("once-%s+%s" % (a[0], b[0]), [a, b]))
-            groups.append((dict(CFG), scs, "topo", {}))
+            if pid == "C14" and q:
+                # (quick tier: conformance with RcTopo for a part of the ordinary scenarios and all forced interleavings)
+                groups.append((dict(CFG), scs[:45], "topo", {}))
+                groups.append((dict(CFG), scs[45:], "topo-b", {}))
+            else:
+                groups.append((dict(CFG), scs, "topo", {}))
             if pid == "C14":
                 # the pipeline as a two-process design (spec/RcTopo.tla): exhaustive check with the mutex, then the
                 # interleavings on which the design WITHOUT the mutex goes wrong forced on the real goroutines
@@ -431,8 +436,23 @@ def run_generic(pid, tier, seed):
         viol, other = [], {}
         tot = {"states": 0, "transitions": 0, "traces": 0, "events": 0, "crashes": 0, "unrealised": 0, "harness_errors": [], "nontrivial": 0}
         samples = []
-        for cfg, scs, tag, consts in groups:
-            r = common.replay_and_validate(cfg, scs, wd, tag, spec="TopoTrace", cfgfile="TopoTrace.cfg", consts=consts, par=min(8, len(scs)))
+        conf = {"accepted": 0, "drift": [], "unchecked": 0}
+        def do(g):
+            cfg, scs, tag, consts = g
+            # C14: the recorded probe rounds and forced interleavings must also be behaviours of the two-process design
+            # model (spec/RcTopo.tla with the mutex): TraceRcTopo
+            kw = dict(conform={}, conform_module="TraceRcTopo", conform_timeout=240) if pid == "C14" and tag in ("topo", "race") else {}
+            return common.replay_and_validate(cfg, scs, wd, tag, spec="TopoTrace", cfgfile="TopoTrace.cfg", consts=consts, par=min(8, len(scs)), **kw)
+        from concurrent.futures import ThreadPoolExecutor
+        with ThreadPoolExecutor(max_workers=3) as ex:
+            results = list(ex.map(do, groups))
+        for (cfg, scs, tag, consts), r in zip(groups, results):
+            if "conf" in r:
+                conf["accepted"] += r["conf"]["accepted"]
+                conf["drift"] += [str(x) for x in r["conf"]["drift"][:10]]
+                conf["unchecked"] += r["conf"]["unchecked"]
+                tot["states"] += r["conf"]["states"]
+                tot["transitions"] += r["conf"]["transitions"]
             for kk in ("states", "transitions", "traces", "events", "unrealised"):
                 tot[kk] += r[kk]
             tot["crashes"] += r["crashes"] + r["dead"]
@@ -447,7 +467,10 @@ def run_generic(pid, tier, seed):
         if model:
             tot["states"] += sum(m["states"] for m in model)
             tot["transitions"] += sum(m["transitions"] for m in model)
-        cov = dict(tot, other=other, samples=samples, descriptions=len(cat), model=model, generated=generated,
+        if conf["drift"]:
+            log("DRIFT: %d recorded executions of the topology pipeline are not behaviours of spec/RcTopo.tla (the implementation no longer "
+                "follows the design model step by step; the property verdict does not depend on this)" % len(conf["drift"]))
+        cov = dict(tot, other=other, samples=samples, descriptions=len(cat), model=model, generated=generated, conformance=conf,
                    rule="a catalogue of %d CLUSTER NODES descriptions / unusable replies, each alone and in random histories of 2-4 successive probe rounds, "
                         "with GET and SET probes at, next to and between all range boundaries after every round; distinct scenarios counted" % len(cat)
                    if pid != "C20" else "runs of 150-300 reads (alone, alternating with writes, PINGs, as MGET) against slots of one master with 2 and with 3 replicas")
@@ -554,7 +577,7 @@ def replay(pid, payload):
 def coverage_json(pid, cov):
     c = {"states": max(1, cov["states"]), "transitions": max(1, cov["transitions"]), "traces_validated_against_impl": cov["traces"],
          "samples": cov["samples"], "evaluations": cov["traces"], "distinct_nontrivial": cov["nontrivial"], "rule": cov["rule"]}
-    for k in ("events", "crashes", "unrealised", "harness_errors", "descriptions", "model", "generated"):
+    for k in ("events", "crashes", "unrealised", "harness_errors", "descriptions", "model", "generated", "conformance"):
         if k in cov:
             c[k] = cov[k]
     c["violations_of_other_properties_seen"] = cov.get("other", {})
